@@ -302,6 +302,10 @@ def boundary_cases():
         for text in ("a\nb", "a\rb", "a\u2028b", "a\n\nb"):
             out.append((fmt, CaptionSet({"en-US": CaptionList([gens.build_caption(10 ** 6, 2 * 10 ** 6, [text])])}),
                         dict(plain, ncaps=1, inner_break=True)))
+        for text in NEAR_MARKER_TEXTS:        # one character away from a marker: in the domain
+            out.append((fmt, CaptionSet({"en-US": CaptionList([gens.build_caption(10 ** 6, 2 * 10 ** 6, ["hello"]),
+                                                               gens.build_caption(3 * 10 ** 6, 4 * 10 ** 6, [text])])}),
+                        dict(plain, inner_break="\n" in text)))
         out.append((fmt, CaptionSet({"en-US": CaptionList(), "fr": CaptionList([gens.build_caption(10 ** 6, 2 * 10 ** 6, ["x"])])}),
                     dict(plain, langs=2, empty_first=True, ncaps=1, visible=fmt[0] not in FIRST_LANGUAGE_ONLY)))
         out.append((fmt, CaptionSet({"en-US": CaptionList([gens.build_caption(10 ** 6, 2 * 10 ** 6, ["x"])]), "fr": CaptionList()}),
@@ -548,14 +552,14 @@ def run(ctx):
     # B: complete documents + truncations
     rng.shuffle(docs)
     small = [d for d in docs if len(d) < 1500][:ctx.n(12, 60)]
-    large = [d for d in docs if len(d) >= 4096][:ctx.n(8, 24)]
+    large = [d for d in docs if len(d) >= 4096][:ctx.n(4, 24)]
     dist["B_complete_documents"] = len(docs)
     check_strings(docs if ctx.thorough else docs[:400], res, "B", complete_docs=True)
     trunc = []
     for d in small:
         trunc.extend(d[:k] for k in range(0, len(d)))
     for d in large:
-        cuts = sorted({rng.randrange(len(d)) for _ in range(60)} | {len(d) - k for k in range(1, 12)} | set(range(0, 40)))
+        cuts = sorted({rng.randrange(len(d)) for _ in range(ctx.n(25, 60))} | {len(d) - k for k in range(1, 9)} | set(range(0, 20)))
         trunc.extend(d[:k] for k in cuts)
     dist["B_truncations"] = len(trunc)
     dist["B_longest"] = max([len(t) for t in trunc] + [0])
